@@ -108,34 +108,44 @@ def districtLaw (part : Sem) (allowed : Option V) (dvotes seats prev max : V) : 
     let r ← part { votes := dv, n := some seats, prev := some prev, max := some max }
     pure (if isNone r then Option.none else some r)
 
+/-- the candidates a preselector allows, judged on the national totals -/
+def allowedLaw (pre : Option Sem) (votes n : V) : Except Err (Option V) :=
+  match pre with
+  | Option.none => pure Option.none
+  | some p => do
+      let nat ← voteTotals votes
+      let r ← p { votes := nat, n := some n }
+      pure (some r)
+
+/-- every constituency separately; `missing` is the seat entry of a constituency the table does not mention -/
+def districtsLaw (part : Sem) (allowed : Option V) (seats prev max missing : V) (kvs : D) :
+    Except Err (List (Key × Option V)) :=
+  kvs.mapM (fun p => do
+    let sd ← seats.items
+    let pd ← prev.items
+    let md ← max.items
+    let r ← districtLaw part allowed p.2 ((D.get? sd p.1).getD missing)
+              ((D.get? pd p.1).getD (.dict [])) ((D.get? md p.1).getD (.dict []))
+    pure (p.1, r))
+
+/-- evaluated constituencies, then the ones without a value with the empty result `kind` -/
+def assemble (rs : List (Key × Option V)) (kind : V) : V :=
+  .dict (rs.filterMap (fun p => p.2.map (fun r => (p.1, r)))
+         ++ rs.filterMap (fun p => match p.2 with
+              | Option.none => some (p.1, kind)
+              | some _ => Option.none))
+
 /-- per-constituency evaluation equals evaluating each constituency separately with its apportioned
     seats; constituencies without seats get the empty result of the kind of the evaluated ones -/
 def byConstituencyLaw (part : Sem) (app : App Sem) (pre : Option Sem) : Sem := fun a => do
   let n := a.n.getD .none
-  let prev := a.prev.getD (.dict [])
-  let max := a.max.getD (.dict [])
   let seats ← apportionLaw app a.votes n
-  let allowed ← match pre with
-    | Option.none => pure Option.none
-    | some p => do
-        let nat ← voteTotals a.votes
-        let r ← p { votes := nat, n := some n }
-        pure (some r)
+  let allowed ← allowedLaw pre a.votes n
   let kvs ← a.votes.items
-  let rs ← kvs.mapM (fun p => do
-    let sd ← seats.items
-    let pd ← prev.items
-    let md ← max.items
-    let r ← districtLaw part allowed p.2 ((D.get? sd p.1).getD .none)
-              ((D.get? pd p.1).getD (.dict [])) ((D.get? md p.1).getD (.dict []))
-    pure (p.1, r))
+  let rs ← districtsLaw part allowed seats (a.prev.getD (.dict [])) (a.max.getD (.dict [])) .none kvs
   match rs.findSome? (·.2) with
   | Option.none => throw eStop
-  | some first =>
-      pure (.dict (rs.filterMap (fun p => p.2.map (fun r => (p.1, r)))
-                   ++ rs.filterMap (fun p => match p.2 with
-                        | Option.none => some (p.1, emptyLike first)
-                        | some _ => Option.none)))
+  | some first => pure (assemble rs (emptyLike first))
 
 /-- pre-apportionment equals apportioning, then evaluating with the table of seats -/
 def preApportionedLaw (part : Sem) (app : App Sem) : Sem := fun a => do
@@ -424,29 +434,12 @@ def conditionedIdeal (elim part : Sem) (depth : Nat) : Sem := fun a => do
     an empty result, also when no constituency at all is evaluated (then of the kind `dflt`) -/
 def byConstituencyIdeal (dflt : V) (part : Sem) (app : App Sem) (pre : Option Sem) : Sem := fun a => do
   let n := a.n.getD .none
-  let prev := a.prev.getD (.dict [])
-  let max := a.max.getD (.dict [])
   let seats ← apportionLaw app a.votes n
-  let allowed ← match pre with
-    | Option.none => pure Option.none
-    | some p => do
-        let nat ← voteTotals a.votes
-        let r ← p { votes := nat, n := some n }
-        pure (some r)
+  let allowed ← allowedLaw pre a.votes n
   let kvs ← a.votes.items
-  let rs ← kvs.mapM (fun p => do
-    let sd ← seats.items
-    let pd ← prev.items
-    let md ← max.items
-    let r ← districtLaw part allowed p.2 ((D.get? sd p.1).getD (.num 0))
-              ((D.get? pd p.1).getD (.dict [])) ((D.get? md p.1).getD (.dict []))
-    pure (p.1, r))
-  let kind := match rs.findSome? (·.2) with
+  let rs ← districtsLaw part allowed seats (a.prev.getD (.dict [])) (a.max.getD (.dict [])) (.num 0) kvs
+  pure (assemble rs (match rs.findSome? (·.2) with
     | some first => emptyLike first
-    | Option.none => dflt
-  pure (.dict (rs.filterMap (fun p => p.2.map (fun r => (p.1, r)))
-               ++ rs.filterMap (fun p => match p.2 with
-                    | Option.none => some (p.1, kind)
-                    | some _ => Option.none)))
+    | Option.none => dflt))
 
 end VL.C14
